@@ -10,7 +10,7 @@ CHECK = dict(
          "_with_itself are proved in Coq for every operation sequence over abstract items, keys and key functions (closed under "
          "the global context). The hand-written model (coq/KS/Model.v) is tied to spec_classes/types/keyed.py and the CPython "
          "3.12 Set/MutableSet mixins on every run by executing model, specification and implementation on the same generated "
-         "cases (eleven item universes incl. typed ones without key function whose item type is wider than the key type, unhashable items with hashable keys and falsy items sharing a key with truthy ones, typed and untyped, both settings of "
+         "cases (fourteen item universes incl. typed ones without key function whose item type is wider than the key type, unhashable items with hashable keys, falsy items sharing a key with truthy ones and items whose default-extracted key is falsy (0, False, \"\"), typed and untyped, both settings of "
          "enforce_item_equivalence, KeyedSet / built-in set / list / self operands, plain and reflected operators) and comparing "
          "output and _dict (in order) after every operation; executed lines of the anchored functions are recorded.",
     note="Trusted: Coq kernel + vm_compute; the hand-written model and Python dict/mixin/operator-dispatch semantics (validated "
